@@ -19,11 +19,11 @@ EXTENDS Num, Json, IOUtils, TLC
 
 Trace == ndJsonDeserialize(IOEnv.TRACE_FILE)
 
-VARIABLES l, cur, prev, nbad, njudged
-tvars == <<l, cur, prev, nbad, njudged>>
+VARIABLES l, cur, prev, nbad, njudged, nref
+tvars == <<l, cur, prev, nbad, njudged, nref>>
 
 NoPrev == [ok |-> FALSE]
-Init == l = 1 /\ cur = [fam |-> "none", tid |-> 0] /\ prev = NoPrev /\ nbad = 0 /\ njudged = 0
+Init == l = 1 /\ cur = [fam |-> "none", tid |-> 0] /\ prev = NoPrev /\ nbad = 0 /\ njudged = 0 /\ nref = 0
 
 (* floats with infinities, ordered *)
 FOf(f) == IF f.cls = "inf" THEN [inf |-> IF f.n[1] = 1 THEN -1 ELSE 1, d |-> D0]
@@ -196,15 +196,17 @@ Next ==
     /\ l <= Len(Trace) /\ l' = l + 1
     /\ LET e == Trace[l] IN
        IF e.op = "Start"
-       THEN cur' = e /\ prev' = NoPrev /\ UNCHANGED <<nbad, njudged>>
+       THEN cur' = e /\ prev' = NoPrev /\ UNCHANGED <<nbad, njudged, nref>>
        ELSE LET v == Verdict(e) IN
             /\ UNCHANGED cur /\ njudged' = njudged + 1
+            /\ nref' = nref + (IF cur.fam = "quant" /\ e.op = "P" /\ ZEq(ZOfJson(e.y), RefQuantZ(S, Dst, ZOfJson(e.x))) THEN 1 ELSE 0)
             /\ IF v = "ok" THEN nbad' = nbad /\ prev' = (IF cur.uo = 1 THEN NoPrev ELSE NextPrev(e))
                ELSE /\ nbad' = nbad + 1
                     /\ prev' = (IF cur.uo = 1 THEN NoPrev ELSE IF v = "order" THEN prev ELSE NextPrev(e))
                     /\ (nbad < 60 => PrintT(<<"MISMATCH", l, cur.tid, e.op, v, "-", "-", FALSE>>))
 
 Spec == Init /\ [][Next]_tvars
-Done == (l = Len(Trace) + 1) => PrintT(<<"SUMMARY", Len(Trace), nbad, 0, njudged>>)
+\* third field: points on which the code agrees exactly with the reference requantisation (informational)
+Done == (l = Len(Trace) + 1) => PrintT(<<"SUMMARY", Len(Trace), nbad, nref, njudged>>)
 AllConsumed == TLCGet("stats").diameter - 1 = Len(Trace)
 =============================================================================
